@@ -38,7 +38,7 @@ from c03_lib import Ref  # noqa: E402
 KINDS = ['file', 'demo:file:mapping', 'demo:mapping:mapping', 'mapping']
 HEX_KINDS = ['hex:file', 'hex:demo:file:mapping', 'hex:demo:mapping:mapping']
 RECORD_CLASSES = [(11, 0), (11, 0), (12, 0), (13, 1), (11, 2), (1, 0), (2, 0), (3, 0), (4, 0), (9, 0), (8, 0),
-                  (9, 2), (14, 1), (15, 0), (15, 0), (16, 0), (17, 1), (18, 0), (19, 0), (19, 0), (21, 0)]
+                  (9, 2), (14, 1), (15, 0), (15, 0), (16, 0), (17, 1), (18, 0), (19, 0), (19, 0), (21, 0), (22, 0), (23, 0), (23, 0), (24, 0)]
 
 
 # =============================================================================== generators
@@ -119,6 +119,7 @@ def gen_storage_case(rng, kind):
         tid += rng.choice([1, 5])
         ops.append('begin %d %d' % (t, tid))
         stored = []
+        rival = None
         for oid in rng.sample(oids, rng.choice([1, 1, noid])):
             have = tids[oid]
             r = rng.random()
@@ -139,6 +140,11 @@ def gen_storage_case(rng, kind):
             stored.append(oid)
             if rng.random() < 0.3:
                 ops.append('bystander')     # another storage of the process runs a 2PC between store and vote
+            if rival is None and rng.random() < 0.15:
+                # a rival thread calls tpc_begin on the SAME storage now: it must block on the commit lock
+                # and must not disturb the holder (e.g. the list its tpc_vote is going to return)
+                rival = (t + 100, tid + 1)
+                ops.append('begin %d %d' % rival)
         if rng.random() < 0.15:                     # an unrelated new object in the same transaction
             ops.append('store %d %d 0 %s' % (t, 5000 + w, L.rec_wire(2, 0, w)))
         ops.append('vote %d' % t)
@@ -148,6 +154,10 @@ def gen_storage_case(rng, kind):
                 tids[oid].append(tid)   # belief; a failed store leaves a transaction without the object
         else:
             ops.append('abort %d' % t)
+        if rival is not None:
+            # the lock is free now: the rival's tpc_begin returns; it gives up
+            ops += ['begin %d %d' % rival, 'abort %d' % rival[0]]
+            tid = rival[1]
     for oid in oids:
         ops += ['cur %d' % oid, 'load %d' % oid, 'hist %d' % oid]
     return dict(section='storage', kind=kind, ops=ops)
@@ -254,7 +264,7 @@ def gen_spec(rng, depth):
 
 def gen_db_case(rng, kind):
     xcls = rng.choice(['Merge11', 'Merge11', 'Merge12', 'NewArgs', 'Counter', 'Raises', 'Conflicts', 'Plain',
-                       'NeedsArg', 'NeedsArgNew', 'SideEffect', 'Moody', 'DeepMerge', 'DeepMerge'])
+                       'NeedsArg', 'NeedsArgNew', 'SideEffect', 'Moody', 'DeepMerge', 'DeepMerge', 'Zähler', 'Größe'])
     nconn = rng.choice([2, 2, 3])
 
     specs = []
